@@ -345,6 +345,8 @@ class Kron(OpsBase):
         out = []
         for k in self.KS:
             for v, stype in (("dense", None), ("csr", None), ("coo", "csr")):
+                if v == "dense" and k == max(self.KS):
+                    continue  # the dense route differs from csr only in the format calls: covered for smaller K
                 out.append(NS(name=f"K={k},{v},stype={stype},ownership", K=k, v=v, stype=stype, own=True))
             out.append(NS(name=f"K={k},csr,full", K=k, v="csr", stype=None, own=False))
         return out
@@ -708,8 +710,21 @@ class DimCompressor(Base):
     target = f"{CORE}::_dim_compressor"
     floor = 50
     KS = (1, 2, 3, 4, 5)
-    KS_UNIT = (1, 2, 3)
+    KS_UNIT = (1, 2)
     dead_ok = ("if dim < 0:",)
+
+    def replay(self, model):
+        """run the real generator on the model's dims for every index subset and compare with the maximal-run spec"""
+        from quimb.core import _dim_compressor as f
+        dims = []
+        while f"n{len(dims)}" in model:
+            dims.append(int(model[f"n{len(dims)}"]))
+        for inds in subsets(len(dims)):
+            got = list(f(dims, inds))
+            exp = [(int(sz), fl) for sz, fl in self.spec(dims, inds)]
+            if got != exp:
+                return dict(call=f"list(_dim_compressor({dims}, {list(inds)}))", observed=got, expected=exp, reproduced=True)
+        return dict(call=f"_dim_compressor({dims}, <every subset>)", reproduced=False)
 
     def cases(self):
         out = [NS(name=f"K={k},inds={s},dims>=2", K=k, inds=s, lo=2) for k in self.KS for s in subsets(k)]
@@ -782,3 +797,531 @@ class DimCompress(Base):
         d["marked-alternate"] = all(isinstance(i, int) for i in ninds) and \
             (tuple(ninds) in (tuple(range(0, len(ndims), 2)), tuple(range(1, len(ndims), 2))))
         return d
+
+
+# =====================================================================================================================
+# ikron.gen_ops -- the placement generator: identity / operator blocks tile the dimension list
+# =====================================================================================================================
+
+
+class PlacedOp:
+    def __init__(self, k, sz):
+        self.k, self.sz = k, sz
+
+
+class OpIter:
+    def __init__(self, items):
+        self.items, self.pos = list(items), 0
+
+
+class Eye:
+    def __init__(self, size, kws):
+        self.size, self.kws = size, kws
+
+
+def placement_plans(K):
+    """all (blocks, inds): blocks = disjoint ordered position ranges [(s, e)]; inds contains every s and e and any subset
+    of the interior positions of the blocks (an operator overlaid on a range may or may not name the interior)"""
+    def rec(start):
+        yield []
+        for s in range(start, K):
+            for e in range(s, K):
+                for rest in rec(e + 1):
+                    yield [(s, e)] + rest
+    for blocks in rec(0):
+        interior = [j for s, e in blocks for j in range(s + 1, e)]
+        ends = sorted({x for s, e in blocks for x in (s, e)})
+        for pick in itertools.product((0, 1), repeat=len(interior)):
+            yield blocks, tuple(sorted(ends + [j for j, p in zip(interior, pick) if p]))
+
+
+@register
+class IkronGenOps(Base):
+    """gen_ops() inside ikron.  Given a placement plan -- block k = positions s_k..e_k, s_k and e_k (and possibly interior
+    positions) in `inds`, with the overlay condition  size(op_k) == prod dims[s_k..e_k]  -- the generator yields, in order,
+    an identity of size prod(gap dims) for every gap between blocks whose product exceeds 1 and op_k for block k; the
+    sizes of what is yielded multiply to prod(dims) (tiling)"""
+
+    target = f"{CORE}::ikron.gen_ops"
+    floor = 50
+    KS = (1, 2, 3, 4)
+    dead_ok = ("dim == -1",)
+
+    def cases(self):
+        return [NS(name=f"K={k},blocks={b},inds={i}", K=k, blocks=b, inds=i) for k in self.KS
+                for b, i in placement_plans(k)]
+
+    def inputs(self, cx, case):
+        nops = max(len(case.inds), 1)
+        return dict(dims=[cx.Int(f"n{i}") for i in range(case.K)], inds=case.inds,
+                    ops=OpIter([PlacedOp(k, cx.Int(f"sz{k}")) for k in range(nops)]),
+                    eye_kws={"sparse": cx.Opaque("sparse"), "stype": cx.Opaque("stype"), "dtype": cx.Opaque("dtype")})
+
+    def requires(self, a, case):
+        d = {"dims>=1": And(*[n >= 1 for n in a.dims])}
+        for k, (s, e) in enumerate(case.blocks):
+            sz = a.ops.items[k].sz
+            d[f"overlay-condition-{k}"] = sz == PROD(a.dims[s:e + 1])
+            if e > s:
+                d[f"block-{k}-first-dim>=2"] = a.dims[s] >= 2
+                d[f"block-{k}-closes-at-its-last-index"] = And(*[sz != PROD(a.dims[s:j + 1])
+                                                                 for j in case.inds if s <= j < e])
+        return d
+
+    def attr(self, cx, base, attr, node):
+        if isinstance(base, PlacedOp) and attr == "shape":
+            return (base.sz, base.sz)
+        return NotImplemented
+
+    def call(self, cx, name, args, kwargs, node):
+        if name == "next" and isinstance(args[0], OpIter):
+            it = args[0]
+            if it.pos >= len(it.items):
+                raise PyRaise("StopIteration", node.lineno)
+            it.pos += 1
+            return it.items[it.pos - 1]
+        if name == "eye":
+            return Eye(args[0], dict(kwargs))
+        return super().call(cx, name, args, kwargs, node)
+
+    def ensures(self, a, r, cx, case):
+        ys = list(getattr(cx, "yielded", []))
+        # expected sequence of blocks
+        items, pos = [], 0
+        for k, (s, e) in enumerate(case.blocks):
+            if s > pos:
+                items.append(("eye", PROD(a.dims[pos:s])))
+            items.append(("op", k))
+            pos = e + 1
+        if pos < case.K:
+            items.append(("eye", PROD(a.dims[pos:])))
+
+        def keep(it):
+            return True if it[0] == "op" else (it[1] > 1)
+
+        def same(y, it):
+            if it[0] == "op":
+                return isinstance(y, PlacedOp) and y is a.ops.items[it[1]]
+            return And(zeq(y.size, it[1]), y.kws == a.eye_kws) if isinstance(y, Eye) else False
+
+        alts = []
+        for S in itertools.product((False, True), repeat=len(items)):
+            sel = [it for it, s in zip(items, S) if s]
+            if len(sel) != len(ys) or any(it[0] == "op" and not s for it, s in zip(items, S)):
+                continue
+            alts.append(And(*[keep(it) if s else Not(keep(it)) for it, s in zip(items, S)],
+                            *[same(y, it) for y, it in zip(ys, sel)]))
+        sizes = [y.sz if isinstance(y, PlacedOp) else y.size for y in ys if isinstance(y, (PlacedOp, Eye))]
+        return {"blocks-as-planned": Or(*alts),
+                "tiling:product-of-yielded-sizes=product-of-dims": zeq(PROD(sizes), PROD(a.dims)) if len(sizes) == len(ys) else False,
+                "ops-consumed=blocks": a.ops.pos == len(case.blocks)}
+
+
+# =====================================================================================================================
+# dim_map -- the dispatcher: shape -> helper (table read from the real source), 1-d coordinate normalisation, flattening
+# =====================================================================================================================
+
+
+def _helper_apply(self, cx, a, node, case=None):
+    """callee use of a _dim_map_* helper (all proved above): its specification, forking on the coordinate tests"""
+    name = self.target.split("::")[-1]
+    if name == "_dim_map_nd":
+        mode = "cyclic" if a.cyclic else ("trim" if a.trim else "strict")
+        szs = tuple(a.szs)
+        if not all(isinstance(c, tuple) for c in a.coos):
+            raise PyRaise("TypeError", node.lineno)  # zip(coo, szs) over an int coordinate
+        cs = [tuple(c) for c in a.coos]
+        cx.oblige(f"call-pre@{node.lineno}:{name}:sizes>=1", "call-pre", And(*[s >= 1 for s in szs]), node.lineno)
+    else:
+        mode = self.mode
+        szs = self.sizes(a)
+        cs = self.coords(a)
+        if mode == "cyclic":
+            cx.oblige(f"call-pre@{node.lineno}:{name}:sizes>=1", "call-pre", And(*[s >= 1 for s in szs]), node.lineno)
+    if any(len(c) != len(szs) for c in cs):
+        raise Unsupported("coordinate / lattice rank mismatch")
+    out = []
+    for c in cs:
+        if mode == "cyclic":
+            out.append(flat_index(tuple(x % sz for x, sz in zip(c, szs)), szs))
+        elif cx.decide(in_range(c, szs), node.lineno):
+            out.append(flat_index(c, szs))
+        elif mode == "strict":
+            raise PyRaise("ValueError", node.lineno)
+    return tuple(out)
+
+
+DimMapBase.apply = _helper_apply
+
+
+class NestedDims:
+    """the nested sequence `dims` of subsystem dimensions: only its shape (symbolic extents) and nesting depth matter"""
+
+    def __init__(self, shape, level=0):
+        self.shape, self.level = tuple(shape), level
+
+
+class FnRef:
+    def __init__(self, name):
+        self.name = name
+
+
+def _module_dict_of_functions(target, varname):
+    """evaluate the module-level dict literal `varname = {literal-key: function-name, ...}` of the REAL source"""
+    import ast
+    import os
+    import vf.pyvc as P
+    P.load_function(target)
+    src, tree = P._SRC_CACHE[os.path.join(P.REPO, target.split("::")[0])]
+    for st in tree.body:
+        if isinstance(st, ast.Assign) and any(isinstance(t, ast.Name) and t.id == varname for t in st.targets) \
+                and isinstance(st.value, ast.Dict):
+            return {ast.literal_eval(k): FnRef(v.id) for k, v in zip(st.value.keys, st.value.values)}
+    raise Unsupported(f"{varname} not found as a dict literal")
+
+
+@register
+class DimMap(Base):
+    """dim_map(dims, coos, cyclic, trim) for a K-dimensional lattice (K <= 3) with symbolic extents and M coordinates:
+    indices = wrapped (cyclic) / in-range subsequence (trim, not cyclic) / all, rejecting out-of-range (neither);
+    dims flattened K-1 times"""
+
+    target = f"{CORE}::dim_map"
+    floor = 40
+
+    def cases(self):
+        out = []
+        for k in (1, 2, 3):
+            for cyc in (False, True):
+                for trim in (False, True):
+                    for ck in (("int", "tuple") if k == 1 else ("tuple",)):
+                        out.append(NS(name=f"K={k},M=2,cyclic={cyc},trim={trim},coos={ck}", K=k, M=2, cyclic=cyc, trim=trim,
+                                      ck=ck))
+        return out
+
+    def inputs(self, cx, case):
+        szs = tuple(cx.Int(f"sz{i}") for i in range(case.K))
+        cs = tuple(tuple(cx.Int(f"c{j}_{i}") for i in range(case.K)) for j in range(case.M))
+        cx.ghost["coords"] = cs
+        coos = tuple(c[0] for c in cs) if case.ck == "int" else cs
+        return dict(dims=NestedDims(szs), coos=coos, cyclic=case.cyclic, trim=case.trim)
+
+    def requires(self, a, case):
+        return {"extents>=1": And(*[s >= 1 for s in a.dims.shape])}
+
+    def attr(self, cx, base, attr, node):
+        if base is None and attr == "_dim_mapper_methods":
+            return _module_dict_of_functions(self.target, "_dim_mapper_methods")
+        return NotImplemented
+
+    def call(self, cx, name, args, kwargs, node):
+        if name == "__isinstance__" and args[1] == "np.ndarray":
+            return False  # nested-sequence kind (the ndarray kind differs only in how shape / ndim are read)
+        if name == "_find_shape_of_nested_int_array" and isinstance(args[0], NestedDims):
+            return args[0].shape  # [leaf] shape of the nested sequence
+        if name.startswith("_dim_mapper_methods["):
+            f = cx.ev(node.func)  # KeyError propagates to the try / except of the code
+            if not isinstance(f, FnRef):
+                raise Unsupported("dispatch table entry is not a function name")
+            from vf.pyvc import REGISTRY_BY_NAME
+            return cx.call_contract(REGISTRY_BY_NAME[f.name], args, kwargs, node)
+        if name == "itertools.chain.from_iterable" and isinstance(args[0], NestedDims):
+            return NestedDims(args[0].shape, args[0].level + 1)
+        if name == "tuple" and isinstance(args[0], NestedDims):
+            return ("flattened", args[0].shape, args[0].level)
+        return super().call(cx, name, args, kwargs, node)
+
+    def _mode(self, a):
+        return "cyclic" if a.cyclic else ("trim" if a.trim else "strict")
+
+    def ensures(self, a, r, cx, case):
+        d = {"pair": isinstance(r, tuple) and len(r) == 2 and isinstance(r[1], tuple)}
+        if not d["pair"]:
+            return d
+        d["dims-flattened-K-1-times"] = r[0] == ("flattened", a.dims.shape, len(a.dims.shape) - 1)
+        helper = DimMapBase()
+        helper.mode = self._mode(a)
+        helper.sizes = lambda _a: tuple(a.dims.shape)
+        helper.coords = lambda _a: [tuple(c) for c in cx.ghost["coords"]]
+        for lab, c in DimMapBase.ensures(helper, a, r[1], cx, case).items():
+            d["inds:" + lab] = c
+        return d
+
+    def ensures_raise(self, a, exc, cx, case):
+        if exc == "ValueError" and self._mode(a) == "strict":
+            return {"raise-only-if-some-coordinate-out-of-range":
+                    Or(*[Not(in_range(c, a.dims.shape)) for c in cx.ghost["coords"]])}
+        return {f"no-raise-{exc}": False}
+
+    def replay(self, model):
+        from quimb.core import dim_map as f
+        for call in ("dim_map([2, 3, 2], [1, 4], cyclic=True, trim=True)", "dim_map([2, 3, 2], [(1,), (4,)], cyclic=True, trim=True)"):
+            try:
+                obs = repr(eval(call, {"dim_map": f}))
+                bad = obs != "((2, 3, 2), (1, 1))"
+            except Exception as e:  # noqa
+                obs, bad = f"{type(e).__name__}: {e}", True
+            if bad:
+                return dict(call=call, observed=obs, expected="((2, 3, 2), (1, 1))", reproduced=True)
+        return dict(call="dim_map(1-d dims, cyclic=True, trim=True)", reproduced=False)
+
+
+# =====================================================================================================================
+# gen.operators.ham_heis -- term coverage, symbolic n: gen_term(i) (three kinds of term), the range terms_needed, the
+# structure of the repeated two-site term; the coverage statements themselves are the lemmas `heis-*` below
+# =====================================================================================================================
+
+OPS = "quimb/gen/operators.py"
+
+
+class Lin:
+    """formal linear combination  sum coef * atom  of operator terms (atoms: hashable python structures or IkronTerm)"""
+
+    def __init__(self, terms=()):
+        self.terms = list(terms)
+
+    def scaled(self, c):
+        return Lin([(c * k, t) for k, t in self.terms])
+
+    def plus(self, other):
+        return Lin(self.terms + other.terms)
+
+
+class IkronTerm:
+    def __init__(self, op, dims, where, kws):
+        self.op, self.dims, self.where, self.kws = op, dims, where, kws
+
+
+def as_lin(x):
+    if isinstance(x, Lin):
+        return x
+    if isinstance(x, int) and x == 0:
+        return Lin()
+    return Lin([(1, x)])
+
+
+def lin_eq(A, B, atom_eq):
+    """coefficient-wise equality of two linear combinations (an absent atom has coefficient 0)"""
+    A, B = as_lin(A), as_lin(B)
+    atoms = []
+    for _, t in A.terms + B.terms:
+        if not any(atom_eq(t, u) is True for u in atoms):
+            atoms.append(t)
+    conds = []
+    for u in atoms:
+        ca = SUM([k for k, t in A.terms if atom_eq(t, u) is True])
+        cb = SUM([k for k, t in B.terms if atom_eq(t, u) is True])
+        conds.append(zeq(ca, cb) if (is_z3(ca) or is_z3(cb)) else ca == cb)
+    return And(*conds)
+
+
+class HeisBase(Base):
+    def call(self, cx, name, args, kwargs, node):
+        if name == "spin_operator":
+            return ("S", args[0])
+        if name == "eye":
+            return ("I", args[0])
+        if name == "kron":
+            return ("kron",) + tuple(args)
+        if name == "zip":
+            return tuple(zip(*[tuple(v) if isinstance(v, str) else cx.iter_concrete(v, node) for v in args]))
+        if name == "ikron":
+            op, dims, where = args[:3]
+            return IkronTerm(op, dims, where, dict(kwargs))
+        if name == "__binop__":
+            op, x, y = args
+            opnd = lambda v: isinstance(v, (Lin, IkronTerm)) or (isinstance(v, tuple) and v and v[0] in ("S", "I", "kron"))
+            if op == "Mult" and opnd(y) and not opnd(x):
+                return as_lin(y).scaled(x)
+            if op == "Add" and (opnd(x) or opnd(y)):
+                return as_lin(x).plus(as_lin(y))
+            if op == "Sub" and (opnd(x) or opnd(y)):
+                return as_lin(x).plus(as_lin(y).scaled(-1))
+        return super().call(cx, name, args, kwargs, node)
+
+
+def _is_ikron(r, op, dims, where, kws, cx):
+    if not isinstance(r, IkronTerm) or r.op is not op or r.dims is not dims or r.kws != kws:
+        return False
+    if isinstance(where, list):
+        return And(*[zeq(x, y) for x, y in zip(r.where, where)]) if isinstance(r.where, list) and len(r.where) == len(where) else False
+    return zeq(r.where, where) if is_int(r.where) else False
+
+
+@register
+class HeisGenTerm(HeisBase):
+    """gen_term(i):  i = -1 -> the field operator on the last site;  i = n-1 -> the interaction S.S on the closing bond
+    (sites 0 and n-1);  otherwise -> the two-site term on sites (i, i+1)"""
+
+    target = f"{OPS}::ham_heis.gen_term"
+    floor = 6
+
+    def inputs(self, cx, case):
+        return dict(i=cx.Int("i"), n=cx.Int("n"), dims=cx.Opaque("dims"), single_site_b=Lin([(cx.Real("c"), ("S", "z"))]),
+                    two_site_term=Lin([(cx.Real("c2"), ("kron", ("S", "z"), ("S", "z")))]),
+                    ikron_kws={"sparse": True, "stype": "coo", "coo_build": True, "ownership": cx.Opaque("ownership")},
+                    op_kws={"sparse": True, "stype": "coo"}, jx=cx.Real("jx"), jy=cx.Real("jy"), jz=cx.Real("jz"))
+
+    def ensures(self, a, r, cx, case):
+        i, n = a.i, a.n
+        js = {"x": a.jx, "y": a.jy, "z": a.jz}
+        closing = False
+        if isinstance(r, Lin) or (isinstance(r, int) and r == 0):
+            rl = as_lin(r)
+            ok = all(isinstance(t, IkronTerm) and isinstance(t.op, tuple) and t.op[0] == "S" and t.dims is a.dims
+                     and t.kws == a.ikron_kws and isinstance(t.where, list) and len(t.where) == 2 for _, t in rl.terms)
+            if ok:
+                sites = And(*[And(zeq(t.where[0], 0), zeq(t.where[1], n - 1)) for _, t in rl.terms])
+                # coefficient of S_s (x) S_s on the closing bond is j_s (a term with j_s = 0 may be left out)
+                coefs = And(*[zeq(SUM([k for k, t in rl.terms if t.op[1] == s]), js[s]) for s in "xyz"])
+                closing = And(sites, coefs)
+        return {"i=-1:field-operator-on-last-site":
+                Implies(i == -1, _is_ikron(r, a.single_site_b, a.dims, n - 1, a.ikron_kws, cx)),
+                "i=n-1:interaction-on-closing-bond": Implies(And(i != -1, i == n - 1), closing),
+                "else:two-site-term-on-(i,i+1)":
+                Implies(And(i != -1, i != n - 1), _is_ikron(r, a.two_site_term, a.dims, [i, i + 1], a.ikron_kws, cx))}
+
+
+def heis_lo(field):
+    return If(field, -1, 0)
+
+
+def heis_hi(cyclic, n):
+    return If(cyclic, n, n - 1)
+
+
+@register
+class HamHeis(HeisBase):
+    """ham_heis: H = sum_{i in range(lo, hi)} gen_term(i) with lo = -1 iff some field component is non-zero, hi = n iff
+    cyclic; the two-site term is  sum_s j_s S_s(x)S_s - sum_s b_s S_s(x)I  (field on its FIRST site), the single-site
+    term  -sum_s b_s S_s"""
+
+    target = f"{OPS}::ham_heis"
+    floor = 10
+
+    def cases(self):
+        return [NS(name=f"j={jk},b={bk},cyclic={c},parallel={p}", jk=jk, bk=bk, cyclic=c, parallel=p)
+                for jk in ("scalar", "triple") for bk in ("scalar", "triple") for c in (False, True)
+                for p in (False, True, None)]
+
+    def inputs(self, cx, case):
+        j = cx.Real("j") if case.jk == "scalar" else (cx.Real("jx"), cx.Real("jy"), cx.Real("jz"))
+        b = cx.Real("b") if case.bk == "scalar" else (cx.Real("bx"), cx.Real("by"), cx.Real("bz"))
+        return dict(n=cx.Int("n"), j=j, b=b, cyclic=case.cyclic, parallel=case.parallel, nthreads=None,
+                    ownership=cx.Opaque("ownership"))
+
+    def requires(self, a, case):
+        return {"n>=2": a.n >= 2}
+
+    def attr(self, cx, base, attr, node):
+        if base is None and attr == "operator":
+            return NS(add="operator.add")
+        return NotImplemented
+
+    def call(self, cx, name, args, kwargs, node):
+        if name == "__binop__" and args[0] == "Mult" and isinstance(args[1], tuple) and args[1] == (2,) and is_int(args[2]):
+            return ("dims", 2, args[2])  # (2,) * n
+        if name == "__unpack__" and is_z3(args[0]):
+            raise PyRaise("TypeError", node.lineno)  # a scalar cannot be unpacked
+        if name == "map":
+            return ("map", args[0], args[1], "serial")
+        if name == "get_thread_pool":
+            return ("pool", args[0])
+        if name == ".map" and isinstance(args[0], tuple) and args[0][:1] == ("pool",):
+            return ("map", args[1], args[2], "pool")
+        if name == "par_reduce" and args[0] == "operator.add" and isinstance(args[1], tuple) and args[1][:1] == ("map",):
+            return ("sum-of-map",) + args[1][1:]
+        if name == "sum" and len(args) == 1 and isinstance(args[0], tuple) and args[0][:1] == ("map",):
+            return ("sum-of-map",) + args[0][1:]
+        return super().call(cx, name, args, kwargs, node)
+
+    def ensures(self, a, r, cx, case):
+        e = cx.env
+        jx, jy, jz = (a.j, a.j, a.j) if is_z3(a.j) else a.j
+        bx, by, bz = (0, 0, a.b) if is_z3(a.b) else a.b
+        d = {"sum-of-map": isinstance(r, tuple) and len(r) == 4 and r[0] == "sum-of-map"}
+        if not d["sum-of-map"]:
+            return d
+        _, f, rng, how = r
+        d["mapped-function-is-gen_term"] = isinstance(f, tuple) and f[0] == "def" and f[1].name == "gen_term"
+        field = Or(*[x != 0 for x in (bx, by, bz) if is_z3(x)])
+        ok = isinstance(rng, tuple) and len(rng) == 3 and rng[0] == "range"
+        d["terms-needed=range(lo,hi)"] = And(zeq(rng[1], heis_lo(field)), zeq(rng[2], heis_hi(a.cyclic, a.n))) if ok else False
+        d["closure-sees-the-parameters"] = And(zeq(e["n"], a.n), e["dims"] == ("dims", 2, a.n),
+                                               *[zeq(e[k], v) for k, v in (("jx", jx), ("jy", jy), ("jz", jz))],
+                                               e["ikron_kws"].get("ownership") is a.ownership)
+        S = lambda s: ("S", s)
+        two = Lin([(c, ("kron", S(s), S(s))) for c, s in zip((jx, jy, jz), "xyz")]
+                  + [(-c, ("kron", S(s), ("I", 2))) for c, s in zip((bx, by, bz), "xyz")])
+        one = Lin([(-c, S(s)) for c, s in zip((bx, by, bz), "xyz")])
+        eq = lambda t, u: t == u
+        d["two-site-term=interaction+field-on-first-site"] = lin_eq(e["two_site_term"], two, eq)
+        d["single-site-term=-b.S"] = lin_eq(e["single_site_b"], one, eq)
+        return d
+
+
+# ---- coverage lemmas (pure arithmetic over the definitions established by the two contracts above).
+#      term i (lo <= i < hi):  FIELD i = -1 acts on site n-1;  CLOSING i = n-1 (i != -1) couples sites n-1 and 0;
+#      GENERAL otherwise couples (i, i+1) and carries the field of site i.
+
+
+def _heis(n, cyclic, field):
+    lo, hi = heis_lo(field), heis_hi(cyclic, n)
+    inr = lambda i: And(lo <= i, i < hi)
+    is_field = lambda i: i == -1
+    is_closing = lambda i: And(i != -1, i == n - 1)
+    is_general = lambda i: And(i != -1, i != n - 1)
+    return inr, is_field, is_closing, is_general
+
+
+@lemmas.lemma("C15", "heis-every-open-bond-has-its-general-term")
+def lem_heis_bond():
+    n, k = z3.Ints("n k")
+    cyc, fld = z3.Bools("cyclic field")
+    inr, _, _, gen = _heis(n, cyc, fld)
+    return [n >= 2, 0 <= k, k < n - 1], And(inr(k), gen(k))
+
+
+@lemmas.lemma("C15", "heis-bond-interaction-exactly-once")
+def lem_heis_bond_once():
+    # a term coupling the open bond (k, k+1) is the general term i = k (the closing term couples (0, n-1), a different
+    # pair once n >= 3; for n = 2 the cyclic chain counts its single bond twice by convention)
+    n, k, i = z3.Ints("n k i")
+    cyc, fld = z3.Bools("cyclic field")
+    inr, isf, clo, gen = _heis(n, cyc, fld)
+    couples = Or(And(gen(i), i == k), And(clo(i), 0 == k, n - 1 == k + 1))
+    return [n >= 3, 0 <= k, k < n - 1, inr(i), couples], i == k
+
+
+@lemmas.lemma("C15", "heis-general-terms-stay-inside-the-chain")
+def lem_heis_inside():
+    n, i = z3.Ints("n i")
+    cyc, fld = z3.Bools("cyclic field")
+    inr, _, _, gen = _heis(n, cyc, fld)
+    return [n >= 2, inr(i), gen(i)], And(0 <= i, i + 1 <= n - 1)
+
+
+@lemmas.lemma("C15", "heis-closing-bond-iff-cyclic")
+def lem_heis_closing():
+    n, i = z3.Ints("n i")
+    cyc, fld = z3.Bools("cyclic field")
+    inr, _, clo, _ = _heis(n, cyc, fld)
+    return [n >= 2], And(Implies(cyc, And(inr(n - 1), clo(n - 1))), Implies(And(inr(i), clo(i)), And(cyc, i == n - 1)))
+
+
+@lemmas.lemma("C15", "heis-every-site-has-its-field-exactly-once")
+def lem_heis_field():
+    n, s, i = z3.Ints("n s i")
+    cyc, fld = z3.Bools("cyclic field")
+    inr, isf, clo, gen = _heis(n, cyc, fld)
+    carries = lambda i, s: Or(And(isf(i), s == n - 1), And(gen(i), s == i))  # the closing term carries no field
+    w = If(s == n - 1, -1, s)
+    return [n >= 2, fld, 0 <= s, s < n], And(inr(w), carries(w, s), Implies(And(inr(i), carries(i, s)), i == w))
+
+
+@lemmas.lemma("C15", "heis-no-field-term-without-field")
+def lem_heis_nofield():
+    n, i = z3.Ints("n i")
+    cyc, fld = z3.Bools("cyclic field")
+    inr, isf, _, _ = _heis(n, cyc, fld)
+    return [n >= 2, Not(fld), inr(i)], Not(isf(i))
